@@ -81,6 +81,23 @@ CHECKS = {
             'Theorems in lean/DesperProofs/Props/C07.lean; correspondence with class/explicit priorities incl. ties, 0 and negatives, removal by supertype, handler processors.',
             'Trusted: Lean kernel; reading of the statement; correspondence harness (bounded by generators). Lifecycle callbacks and processors are passive in the World model (re-entrant callbacks: dispatcher model); CPython dict/set/__subclasses__ order semantics are modelled (insertion order, creation order), not verified; default id generator only.',
             '§5 C07'),
+    'C18': ('math-translator',
+            'Lean 4 theorems (ring / linear_combination / Mathlib Matrix, Real.sqrt, Complex.arg) about '
+            'definitions REGENERATED from desper/math.py on every run by a tracing translator; translator '
+            'validated every run by exact rational execution against the real functions',
+            '55 theorems in lean/DesperProofs/Props/C18.lean with the generated definitions '
+            '(lean/DesperProofs/Generated/MathGen.lean, traced from the real functions on symbolic scalars) on '
+            'the left and textbook definitions / Mathlib Matrix on the right: entry-wise arithmetic, dot, cross, '
+            'lerp, scale, clamp, distance, swizzling for every letter list, row-by-column product, associativity, '
+            'identity, (A@B)@v = B@(A@v), transpose, determinant and two-sided Mat4 inverse, constructors, and over '
+            'the reals normalize / from_magnitude / limit / from_polar / from_heading / rotate.  A change in '
+            'math.py changes the generated file; a theorem that no longer checks is reported with a concrete '
+            'failing input found by the textbook oracle.',
+            'Trusted: Lean kernel; the translator (Sym operator semantics, branch enumerator, _math shim mapping '
+            'sqrt/sin/cos/atan2 to Real.sqrt/sin/cos/Complex.arg) - validated every run on exact rationals; the '
+            'textbook definitions in the Props file.  Partial: IEEE floating point is not modelled, only tested '
+            '(rel. tol. 1e-9 on magnitudes 1e-3..1e3); x/0 is a call status in the executable version.',
+            '§5 C18'),
 }
 
 NOT_YET = 'check not built yet (work in progress; see DESIGN.md §5 for the plan)'
@@ -116,6 +133,9 @@ def main():
         'engines': [
             {'name': 'lean-proofs', 'path': 'lean/', 'serves_properties': sorted(CHECKS),
              'kind_free_text': 'Lean 4 models (DesperModel, core only, executable) and theorems (DesperProofs)'},
+            {'name': 'math-translator', 'path': 'harness/translate_math.py', 'serves_properties': ['C18'],
+             'kind_free_text': 'tracing translator desper/math.py -> Lean (generic field / reals for proofs, Rat '
+                               'for execution), regenerated and validated on every run'},
             {'name': 'correspondence', 'path': 'harness/', 'serves_properties': sorted(CHECKS),
              'kind_free_text': 'differential run of the Lean driver and the real desper code on generated '
                                'scenarios + executable oracle for failing-input search'},
